@@ -365,7 +365,7 @@ def _norm(e):
     return _arith(J.canon(e))
 
 
-def _statements(items, pat, split_concat=False):
+def _statements(items, pat, split_concat=False, tree=None, rel=None):
     """Every place inside `items` (descending into loops) where the text matches `pat` (holes are the pattern's groups), with the hole
     expressions resolved to what they stand for: `{% set %}` bindings substituted, and -- so that a flat loop with index arithmetic
     and a loop nest read alike -- the loop variable of the k-th enclosing loop over S replaced by `S[loop@k.index0]` (for a tuple
@@ -373,15 +373,21 @@ def _statements(items, pat, split_concat=False):
     -> [(resolved group expressions, [(for item, resolved sequence), ...outermost first], line)]"""
     found = []
 
+    def val(e, env):
+        # one-expression macros of the template used as values are what they print (jmodel.inline_macros)
+        if tree is not None:
+            e = J.inline_macros(tree, rel, e)
+        return J.subst(e, env)
+
     def rec(its, env, stack):
         env = dict(env)
         flat = []
         for it in its:
             if it[0] == "set":
                 if it[1][0] == "name":
-                    env[it[1][1]] = J.subst(it[2], env)
+                    env[it[1][1]] = val(it[2], env)
                 elif it[1][0] == "tuple" and it[2][0] == "tuple" and len(it[1][1]) == len(it[2][1]):
-                    vals = [J.subst(v, env) for v in it[2][1]]
+                    vals = [val(v, env) for v in it[2][1]]
                     for t, v in zip(it[1][1], vals):
                         if t[0] == "name":
                             env[t[1]] = v
@@ -389,7 +395,7 @@ def _statements(items, pat, split_concat=False):
                 k = len(stack) + 1
                 lp = ("name", f"loop@{k}")
                 idx = ("attr", lp, "index0")
-                seq = J.subst(it[2], env)
+                seq = val(it[2], env)
                 e2 = dict(env)
                 e2["loop"] = lp
                 tg = it[1]
@@ -410,7 +416,7 @@ def _statements(items, pat, split_concat=False):
             elif it[0] == "text":
                 flat.append(it)
             elif it[0] == "out":
-                r = J.subst(it[1], env)
+                r = val(it[1], env)
                 # an output that is a concatenation `"ab[" ~ idx ~ "]"` prints its constant pieces as text around its other pieces
                 parts = r[1] if (split_concat and r[0] == "concat") else (r,)
                 for part in parts:
@@ -446,7 +452,7 @@ def _r2_template(ctx, label, rel, pat):
     items = J.flatten(ctx.tree, rel, {})
     sk = Skel(items)
     key = f"{label}:InitRenorm"
-    sts = _statements(_top_items(sk, "InitRenorm"), pat)
+    sts = _statements(_top_items(sk, "InitRenorm"), pat, tree=ctx.tree, rel=rel)
     if len(sts) != 1:
         ctx.unrec("R2", key, (rel, 0), f"expected one assignment `A(row, col) = term` inside the loop(s) of InitRenorm, found {len(sts)}")
     else:
@@ -484,7 +490,7 @@ def _r2_template(ctx, label, rel, pat):
                       expected=J.show(want_val)[:160], found=J.show(val)[:160])
     # RenormAbundance
     key = f"{label}:RenormAbundance"
-    sts = _statements(_top_items(sk, "RenormAbundance"), r"ab\s*\[\s*\x00(\d+)\x00\s*\]\s*=\s*ab\s*\[\s*\x00(\d+)\x00\s*\]\s*\*\s*\(\s*\x00(\d+)\x00\s*\)\s*;", split_concat=True)
+    sts = _statements(_top_items(sk, "RenormAbundance"), r"ab\s*\[\s*\x00(\d+)\x00\s*\]\s*=\s*ab\s*\[\s*\x00(\d+)\x00\s*\]\s*\*\s*\(\s*\x00(\d+)\x00\s*\)\s*;", split_concat=True, tree=ctx.tree, rel=rel)
     if len(sts) != 1 or len(sts[0][1]) != 1:
         ctx.unrec("R2", key, (rel, 0), f"expected one statement `ab[IDX] = ab[IDX] * (factor);` inside one loop of RenormAbundance, found {len(sts)}")
         return
@@ -657,4 +663,5 @@ BENIGN = [
         {"file": FILE, "old": "        matrix = []\n        for iele, einame in enumerate(elemnames):\n            for jele, ejname in enumerate(elemnames):\n                terms = [\"0.0\"]\n                for ispec, spec in enumerate(species):\n                    ci = spec.element_count.get(einame, 0)\n                    cj = spec.element_count.get(ejname, 0)\n                    if not spec.is_electron and ci and cj:\n                        terms.append(\n                            f\"{(ci * cj * elements[jele].A)} * ab[IDX_{spec.alias}] / {spec.A} / Hnuclei\"\n                        )\n                matrix.append(\" + \".join(terms))\n", "new": "        refs = [_Elem(next(iter(e.element_count)), e) for e in elements]\n        matrix = []\n        for ri in refs:\n            for rj in refs:\n                terms = [\"0.0\"]\n                for spec in species:\n                    ci = spec.element_count.get(ri.label, 0)\n                    cj = spec.element_count.get(rj.label, 0)\n                    if not spec.is_electron and ci and cj:\n                        terms.append(f\"{(ci * cj * rj.atom.A)} * ab[IDX_{spec.alias}] / {spec.A} / Hnuclei\")\n                matrix.append(\" + \".join(terms))\n"}]},
     {"name": "renorm-content-by-keyword", "file": FILE, "old": "        return self.RenormContent(renorm, matrix)", "new": "        return self.RenormContent(matrix=matrix, factor=renorm)"},
     {"name": "networkinfo-through-locals", "file": FILE, "old": "        info = NetworkInfo(\n            network.elements,\n            network.species,\n", "new": "        atoms = network.elements\n        members = network.species\n        info = NetworkInfo(\n            atoms,\n            members,\n"},
+    {"name": "index-name-through-macro", "file": OD_RENORM, "old": "    A({{ elemidxnames[i] }}, {{ elemidxnames[j] }}) =", "new": "    {% macro ename(k) %}{{ elemidxnames[k] }}{% endmacro -%}\n    A({{ ename(i) }}, {{ ename(j) }}) ="},
 ]
